@@ -49,6 +49,9 @@ static real_type UF_update_length(real_type a, real_type b, real_type c) { real_
 #endif
 static real_type celer_min(real_type a, real_type b) { return fmin(a, b); }    /* celeritas::min<floating> = std::fmin (extracted and checked in c14_msc_*) */
 int g_iters;      /* ghost: number of loop iterations executed */
+bool g_bumped;    /* ghost: the zero-progress bump branch was taken */
+_Bool __CPROVER_uninterpreted_soft_equal(double, double);
+static bool soft_equal(real_type a, real_type b) { return __CPROVER_uninterpreted_soft_equal(a, b) != 0; }    /* tolerance comparison: uninterpreted (either answer) */
 """
 
 FP_RULES = [
@@ -70,7 +73,8 @@ FP_RULES = [
     Rule(r"self->self->", "self->", "*", note="(idempotence of the previous rule)"),
     Rule(r"= geo_\.pos\(\);", "= GEO_pos(self->geo_);", "*", note="geometry view call"),
     Rule(r"celeritas::min\(|(?<![\w_])min\(", "celer_min(", "*", note="celeritas::min"),
-    Rule(r"CELER_ASSERT\(soft_equal\(result\.distance, step\)\);", "/* NOT PROMOTED: CELER_ASSERT(soft_equal(result.distance, step)) -- floating-point accumulation */", 1, note="in-body assert not promoted (FP accumulation)"),
+    Rule(r"CELER_ASSERT\(soft_equal\(result\.distance, step\)\);", "/* NOT PROMOTED: CELER_ASSERT(soft_equal(result.distance, step)) -- floating-point accumulation */", (0, 1), note="in-body assert not promoted (FP accumulation)"),
+    Rule(r"(result\.distance = celer_min\(FPR_bump_distance\(self\), step\);)", r"\1 g_bumped = 1; /* ghost */", (0, 1), note="ghost: zero-progress bump taken"),
     Rule(r"Real3 dir = make_unit_vector\(self->state_\.mom\);", "Real3 dir = UT_make_unit_vector(self->state_.mom);", 1, note="vector numerics -> stub"),
     Rule(r"axpy\(result\.distance, dir, &self->state_\.pos\);", "UT_axpy(result.distance, dir, &self->state_.pos);", 1, note="vector numerics -> stub"),
     Rule(r"CELER_ENSURE\(\s*result\.distance > 0\s*&& \(result\.distance <= step \|\| soft_equal\(result\.distance, step\)\)\);", "CELER_ENSURE(result.distance > 0); /* second conjunct (distance <= step up to rounding) NOT PROMOTED: FP accumulation */", 1, note="ENSURE split: positivity promoted, 'up to rounding' part not"),
@@ -88,18 +92,20 @@ def build_field_propagator_with(ctx, rules):
     return (HDR + FP_MODEL + "".join(helpers) + """
 Propagation FPR_call(FieldPropagator* self, real_type step)
 __CPROVER_requires(self != 0 && self->driver_ != 0 && self->geo_ != 0)
-__CPROVER_requires(step > 0 && !__CPROVER_isinfd(step))      /* own CELER_EXPECT */
+__CPROVER_requires(step > 0 && !__CPROVER_isinfd(step) && !g_bumped)      /* own CELER_EXPECT */
 /* FieldDriverOptions as validated by its operator bool: all tolerances positive; substep budget in [1, MAXSUB] for this bounded unit */
 /* the bump distance 0.1 * delta_intersection does not underflow to zero */
 __CPROVER_requires(self->driver_->delta_intersection_ * 0.1 > 0)
 __CPROVER_requires(self->driver_->delta_intersection_ > 0 && !__CPROVER_isinfd(self->driver_->delta_intersection_) && self->driver_->minimum_step_ > 0 && self->driver_->max_substeps_ >= 1 && self->driver_->max_substeps_ <= MAXSUB)
-__CPROVER_assigns(self->state_, self->geo_->on_boundary, self->geo_->pos, g_iters)
+__CPROVER_assigns(self->state_, self->geo_->on_boundary, self->geo_->pos, g_iters, g_bumped)
 /* the returned distance is positive (its own CELER_ENSURE) */
 __CPROVER_ensures(__CPROVER_return_value.distance > 0)
 /* the returned boundary flag equals the geometry's on-boundary state (its own CELER_ENSURE; also in the zero-progress bump case) */
 __CPROVER_ensures(!__CPROVER_return_value.looping ==> __CPROVER_return_value.boundary == self->geo_->on_boundary)
 /* looping is reported only when the substep budget is spent and the step was not completed */
 __CPROVER_ensures(__CPROVER_return_value.looping ==> (g_iters >= self->driver_->max_substeps_ && __CPROVER_return_value.distance < step))
+/* the only outcomes: a boundary hit, looping, the FULL requested step, or the zero-progress bump min(bump_distance, step) -- never a silently shortened step */
+__CPROVER_ensures((!__CPROVER_return_value.looping && !__CPROVER_return_value.boundary && !g_bumped) ==> __CPROVER_return_value.distance >= step)
 /* a boundary hit is never reported together with looping */
 __CPROVER_ensures(!(__CPROVER_return_value.looping && __CPROVER_return_value.boundary && __CPROVER_return_value.distance >= step))
 /* one substep only (budget 1, no boundary search hit): the distance never exceeds the requested step -- exact, no accumulation */
@@ -143,7 +149,7 @@ def build_field_propagator_lc(ctx):
     src = build_field_propagator_with(ctx, FP_LC_RULES)
     src = src.replace("int g_iters;      /* ghost: number of loop iterations executed */", "int g_moves; unsigned long g_niter;   /* ghost: completed internal substeps; loop iterations started (0, 1, or 2 = more) */")
     src = src.replace("self->driver_->max_substeps_ >= 1 && self->driver_->max_substeps_ <= MAXSUB)", "self->driver_->max_substeps_ >= 1 && self->driver_->max_substeps_ <= 30000)   /* any substep budget */")
-    src = src.replace("__CPROVER_assigns(self->state_, self->geo_->on_boundary, self->geo_->pos, g_iters)", "__CPROVER_assigns(self->state_, self->geo_->on_boundary, self->geo_->pos, g_moves, g_niter)")
+    src = src.replace("__CPROVER_assigns(self->state_, self->geo_->on_boundary, self->geo_->pos, g_iters, g_bumped)", "__CPROVER_assigns(self->state_, self->geo_->on_boundary, self->geo_->pos, g_moves, g_niter, g_bumped)")
     src = src.replace("(g_iters >= self->driver_->max_substeps_ && __CPROVER_return_value.distance < step))", "(g_moves == self->driver_->max_substeps_ && __CPROVER_return_value.distance < step))")
     src = src.replace("__CPROVER_ensures(g_iters == 1 ==> __CPROVER_return_value.distance <= step)", "__CPROVER_ensures(g_niter == 1 ==> __CPROVER_return_value.distance <= step)")
     if "g_iters" in src:
